@@ -747,6 +747,72 @@ example : ({ n := 4, buf := [0, 0], start := 0, end_ := 3, nonEmpty := true } : 
 example : Ring.run (Ring.new 0) [.pop 3, .pushByte 1] = .error (.panic "push_byte: buf[end]") := rfl
 example : Ring.run (Ring.new 0) [.push [1]] = .error .hang := rfl
 
+/-! ### The receive window's buffer calls, as a whole run, over the checked ring -/
+
+/-- **The session's receive buffer, run over the real ring** (lifts `session_ring_ops` from one
+operation to whole histories): take any sequence of the buffer calls `RecvWindow` makes —
+`accept`: `accept_incoming`'s `if self.buf.free() < prefix_len + payload.len() { Err }`, optional
+`push` of the two length bytes, `push(payload)` (session.rs:300-310); `fetch cap`:
+`fetch_message`'s two `pop_byte()`, `pop(&mut buf[..min(len, cap)])`, and `pop_byte()` for the
+truncated rest (session.rs:417-436); `reset`: `clear()`. Whenever the byte LIST of the session model
+can run the sequence (`qBufRun` with `N = MAX_MESSAGE_SIZE`, i.e. `ringFree` / `ringPush` /
+`lo :: hi :: rest`, `rest.take`, `rest.drop` exactly as in `Model/Btp.lean`, see
+`recv_accept_is_bufop`, `recv_fetch_is_bufop`), the checked `RingBuf<3166>` started from `new()` never
+panics and answers the same (refused / accepted / the fetched bytes). The session model itself
+still keeps the `List`; this theorem is what justifies it. -/
+theorem session_buffer_on_ring (ops : List BufOp) (hw : ∀ op ∈ ops, op.Wf) (outs : List BufOut)
+    (hq : qBufRun maxMessageSize [] ops = some outs) :
+    Ring.bufRun (Ring.new maxMessageSize) ops = .ok (some outs) :=
+  Ring.bufRun_refines maxMessageSize session_ring_capacity.1 session_ring_capacity.2 ops hw outs hq
+
+/-- the prefix argument of the buffer operation that `accept_incoming` performs for a segment -/
+def pfxOf (begun : Option Nat) : Option (List Nat) :=
+  if sduPrefix begun = [] then none else some (sduPrefix begun)
+
+theorem pfxOf_getD (begun : Option Nat) : (pfxOf begun).getD [] = sduPrefix begun := by
+  unfold pfxOf; split <;> simp [*]
+
+theorem recv_accept_is_bufop {r r2 : RecvWindow} {h : Hdr} {p : List Nat} {mtu now : Nat}
+    (hok : r.acceptIncoming h p mtu now = .ok r2) :
+    qBufStep maxMessageSize r.buf (.accept (pfxOf h.getMsgLen) p) = some (r2.buf, .accepted) := by
+  obtain ⟨_, _, _, _, _, _, _, hfree, hc⟩ := acceptIncoming_inv hok
+  obtain ⟨hb, _⟩ := commit_inv hc
+  have : ¬ maxMessageSize - r.buf.length < (sduPrefix h.getMsgLen).length + p.length := by
+    unfold ringFree at hfree; omega
+  simp only [qBufStep, pfxOf_getD, this, if_false, hb]
+  rfl
+
+theorem recv_fetch_is_bufop {r r2 : RecvWindow} {cap : Nat} {out : List Nat}
+    (hok : r.fetchMessage cap = .ok (r2, some out)) :
+    qBufStep maxMessageSize r.buf (.fetch cap) = some (r2.buf, .fetched out) := by
+  unfold RecvWindow.fetchMessage at hok
+  split at hok
+  · cases hok
+  · split at hok
+    · rename_i lo hi rest hbuf
+      simp only at hok
+      split at hok
+      · cases hok
+      · split at hok
+        · cases hok
+        · rename_i h1 h2
+          split at hok
+          · cases hok
+          · cases hok
+            simp only [hbuf, qBufStep]
+            rw [if_pos (by omega)]
+    · cases hok
+
+
+/-- Non-vacuity of `session_buffer_on_ring`: two segments of one 5-byte message (length prefix
+`05 00`), a refusal-free run, a truncating fetch (`cap = 3`: 3 bytes handed out, 2 drained with
+`pop_byte`), then an empty message list again. -/
+example : qBufRun maxMessageSize [] [.accept (some [5, 0]) [1, 2, 3], .accept none [4, 5], .fetch 3, .reset] =
+    some [.accepted, .accepted, .fetched [1, 2, 3], .cleared] := by decide
+example : Ring.bufRun (Ring.new 8) [.accept (some [5, 0]) [1, 2, 3], .accept none [4, 5], .accept none [6, 7],
+      .fetch 3, .accept (some [2, 0]) [8, 9], .fetch 9] =
+    .ok (some [.accepted, .accepted, .refused, .fetched [1, 2, 3], .accepted, .fetched [8, 9]]) := rfl
+
 /-! ## The full statement -/
 
 /-- The full safety statement of the property on the model: from two fresh ends, under every
